@@ -26,6 +26,7 @@ m('c04_one_iteration', 'C04', MO, "                max_iterations = 1000  # Prev
 # ---- C05/C06
 m('c06_revert_f6', ['C06', 'C05'], S, "                self._runloop_task = loop.create_task(self._run_loop(), name=f'{self}._run_loop', context=runloop_context)", "                self._runloop_task = loop.create_task(self._run_loop(), name=f'{self}._run_loop')", 'revert F6')
 m('c06_parallel_bus_skips_lock', ['C06', 'C05'], S, "        async with _get_global_lock():\n            # Process the event\n            await self.process_event(event, timeout=timeout)\n\n            # Mark task as done only if we got it from the queue\n            if from_queue:\n                self.event_queue.task_done()\n", "        if self.parallel_handlers:\n            await self.process_event(event, timeout=timeout)\n            if from_queue:\n                self.event_queue.task_done()\n        else:\n          async with _get_global_lock():\n            # Process the event\n            await self.process_event(event, timeout=timeout)\n\n            # Mark task as done only if we got it from the queue\n            if from_queue:\n                self.event_queue.task_done()\n", 'parallel buses process without the global lock')
+m('c06_revert_f27', 'C06', S, "                while still_running:\n                    try:\n                        await asyncio.wait(still_running)\n                    except asyncio.CancelledError:", "                while still_running:\n                    try:\n                        await asyncio.wait(still_running)\n                    except asyncio.CancelledError:\n                        raise\n                    except ZeroDivisionError:", 'revert F27: a second cancellation abandons unwinding siblings')
 # ---- C07
 m('c07_no_path_check', 'C07', S, "            if target_bus.name in event.event_path:\n", "            if target_bus.name in event.event_path[-1:]:\n", 'two sites: forward-loop check (at selection and again before forwarding) only looks at the last bus: cycles never terminate',
   more=[(S, "            and handler.__self__.name in event.event_path\n", "            and handler.__self__.name in event.event_path[-1:]\n")])
